@@ -478,6 +478,33 @@ func (b *builder) postTransform(kind string, tmpl []string, i int, n *Node) z.Po
 	}
 }
 
+func leafTy(n *Node) string {
+	for n.K != "prim" && n.K != "custom" && len(n.Kids) > 0 {
+		n = n.Elem()
+	}
+	if n.K == "custom" {
+		return "int"
+	}
+	return n.Ty
+}
+
+func preV[T any](b *builder, n *Node, tmpl []string, inner z.ZogSchema) z.ZogSchema {
+	kind := n.Ty
+	return z.Preprocess(func(p *T, ctx z.Ctx) (T, error) {
+		b.rec.callback("pre", "r", 1, tmpl, n, p, ctx)
+		var zero T
+		switch kind {
+		case "err":
+			return zero, errors.New("preprocess failed")
+		case "zerr":
+			return zero, ctx.Issue().SetCode("prez").SetMessage("prez")
+		case "mut":
+			return concNative(leafTy(n), 7).(T), nil
+		}
+		return *p, nil
+	}, inner)
+}
+
 func buildNumber[T int | float64](s *z.NumberSchema[T], b *builder, n *Node, tmpl []string) z.ZogSchema {
 	cv := func(i int) T { return T(i) }
 	if n.Req {
@@ -689,6 +716,22 @@ func (b *builder) build1(n *Node, tmpl []string) z.ZogSchema {
 	case "pre":
 		inner := b.build(n.Elem(), tmpl)
 		kind := n.Ty
+		if b.c.Mode == "validate" {
+			// Validate: the function takes the POINTER to the value and returns the value to store
+			switch leafTy(n) {
+			case "int":
+				return preV[int](b, n, tmpl, inner)
+			case "str":
+				return preV[string](b, n, tmpl, inner)
+			case "bool":
+				return preV[bool](b, n, tmpl, inner)
+			case "float":
+				return preV[float64](b, n, tmpl, inner)
+			case "time":
+				return preV[time.Time](b, n, tmpl, inner)
+			}
+			panic("pre/validate over " + leafTy(n))
+		}
 		return z.Preprocess(func(s string, ctx z.Ctx) (string, error) {
 			b.rec.callback("pre", "r", 1, tmpl, n, s, ctx)
 			switch kind {
@@ -696,6 +739,8 @@ func (b *builder) build1(n *Node, tmpl []string) z.ZogSchema {
 				return "", errors.New("preprocess failed")
 			case "zerr":
 				return "", ctx.Issue().SetCode("prez").SetMessage("prez")
+			case "mut":
+				return concString(leafTy(n), 7), nil
 			}
 			return s, nil
 		}, inner)
